@@ -11,4 +11,7 @@ for f in sorted(glob.glob(f'/verif/replays/{prop}/*.json')):
         seen.add(k)
         print(f.split('/')[-1], d['job']['h'], json.dumps(d['job']['p']), k[0], '\n', k[1], '\n   CASE', json.dumps(det.get('case'))[:500], '\n   SYM', json.dumps(det.get('sym_got'))[:300], '\n   REAL', json.dumps(det.get('real_got', det.get('got')))[:300], '\n   EXP', json.dumps(det.get('exp'))[:300])
     else:
+        k = (json.dumps(d['got'])[:80], json.dumps(d['exp'])[:40], d['job'].get('kind'), d['job'].get('op'))
+        if k in seen: continue
+        seen.add(k)
         print(f.split('/')[-1], d.get('how'), json.dumps(d.get('job')), '\n   CASE', json.dumps(d['case'])[:500], '\n   GOT', json.dumps(d['got'])[:300], '\n   EXP', json.dumps(d['exp'])[:300])
